@@ -62,7 +62,7 @@ func (mf *mergeFn) paramPartition(coll ssa.Value, at *ssa.BasicBlock) int {
 func (ma *mergeAnalysis) ruleR9(c *Ctx) {
 	m := c.M
 	c.rule("R9", "removal releases ownership: for every removable kind there is a clear of the removal-marked key whose execution depends only on the key being marked (and present in the reply) — not on the key also being set again in the same response — and no claim of that kind can run before it", 5)
-	_, clears, _ := claimFamily(m)
+	_, clears := ledgerFamily(m)
 	used := map[*ssa.Function]int{}
 	for _, mf := range ma.fns {
 		// functions that interpret removal markers must clear
@@ -79,9 +79,9 @@ func (ma *mergeAnalysis) ruleR9(c *Ctx) {
 				"the function interprets removal markers but never clears ownership: removing an item does not release the earlier plugin's claim")
 		}
 		for _, cc := range mf.clears {
-			used[cc.callee]++
+			used[cc.ledger]++
 			key := mf.fn.Name() + "/clear"
-			what := fmt.Sprintf("%s in %s runs for every removal-marked key, independent of re-setting", cc.callee.Name(), mf.fn.Name())
+			what := fmt.Sprintf("%s in %s runs for every removal-marked key, independent of re-setting", cc.name(), mf.fn.Name())
 			bad := ""
 			b := cc.call.Block()
 			if cc.key != nil {
@@ -164,8 +164,8 @@ func (ma *mergeAnalysis) ruleR9(c *Ctx) {
 			// (3) no claim of the same slot can run before it
 			if bad == "" {
 				for _, cl := range mf.claims {
-					if sameSlot(m, cl.callee, cc.callee) && instrCanReach(cl.call, cc.call) {
-						bad = fmt.Sprintf("a claim of the same kind (%s at %s) can run before this clear: claims are evaluated before all removals are applied", cl.callee.Name(), c.pos(cl.call.Pos()))
+					if sameSlot(m, cl.ledger, cc.ledger) && instrCanReach(cl.call, cc.call) {
+						bad = fmt.Sprintf("a claim of the same kind (%s at %s) can run before this clear: claims are evaluated before all removals are applied", cl.name(), c.pos(cl.call.Pos()))
 					}
 				}
 			}
@@ -187,6 +187,12 @@ func sameSlot(m *Module, a, b *ssa.Function) bool {
 }
 
 func wrapperSlot(m *Module, w *ssa.Function) string {
+	if rn := recvNamed(w); rn != nil && rn.Obj().Name() == "owners" {
+		if s := ownersSlots(m, w); len(s) == 1 {
+			return s[0]
+		}
+		return ""
+	}
 	for _, ci := range calls(w) {
 		g := m.callee(ci.Common())
 		if rn := recvNamed(g); rn != nil && rn.Obj().Name() == "owners" {
@@ -204,7 +210,7 @@ func (ma *mergeAnalysis) ruleR1dual(c *Ctx) {
 	ord := map[string]int{}
 	for _, mf := range ma.fns {
 		for _, cc := range mf.claims {
-			base := mf.fn.Name() + "/" + cc.callee.Name()
+			base := mf.fn.Name() + "/" + cc.name()
 			ord[base]++
 			key := base
 			if ord[base] > 1 {
@@ -233,7 +239,7 @@ func (ma *mergeAnalysis) ruleR1dual(c *Ctx) {
 					}
 				}
 			}
-			c.ok("R1d", key, cc.call.Pos(), n > 0, fmt.Sprintf("%s in %s is followed by a write of its item", cc.callee.Name(), mf.fn.Name()),
+			c.ok("R1d", key, cc.call.Pos(), n > 0, fmt.Sprintf("%s in %s is followed by a write of its item", cc.name(), mf.fn.Name()),
 				"the claim guards no value write: the plugin becomes owner of an item it did not set, and a later plugin setting it is refused")
 		}
 	}
@@ -262,8 +268,28 @@ func ruleR9m(c *Ctx) {
 	for _, name := range []string{"IsMarkedForRemoval", "ClearRemovalMarker"} {
 		f := m.fn(pkgAPI, name)
 		key := f.Params[0]
+		// ClearRemovalMarker may be written as "the key IsMarkedForRemoval returns"
+		if name == "ClearRemovalMarker" {
+			isM := m.fn(pkgAPI, "IsMarkedForRemoval")
+			deleg, other := 0, 0
+			for _, r := range returnsOf(f) {
+				for _, v := range returnValues(r, 0) {
+					if ex, ok := v.(*ssa.Extract); ok && ex.Index == 0 {
+						if call, ok := ex.Tuple.(*ssa.Call); ok && m.callee(call.Common()) == isM && call.Call.Args[0] == ssa.Value(key) {
+							deleg++
+							continue
+						}
+					}
+					other++
+				}
+			}
+			if deleg > 0 && other == 0 {
+				c.add("R9m", name, f.Pos(), Discharged, name+" returns the key that IsMarkedForRemoval (checked above) computes for its argument", "")
+				continue
+			}
+		}
 		var cmpOK, sliceOK bool
-		var strip *ssa.Slice
+		var strip ssa.Value
 		for _, b := range f.Blocks {
 			for _, in := range b.Instrs {
 				switch x := in.(type) {
@@ -291,6 +317,19 @@ func ruleR9m(c *Ctx) {
 							strip = x
 						}
 					}
+				case *ssa.Call:
+					// the same test and strip spelled with the strings package
+					if g := m.callee(x.Common()); g != nil && len(x.Call.Args) == 2 && x.Call.Args[0] == ssa.Value(key) {
+						if pfx, ok := constString(x.Call.Args[1]); ok && pfx == marker {
+							switch g.String() {
+							case "strings.HasPrefix":
+								cmpOK = true
+							case "strings.TrimPrefix":
+								sliceOK = true
+								strip = x
+							}
+						}
+					}
 				}
 			}
 		}
@@ -303,7 +342,7 @@ func ruleR9m(c *Ctx) {
 			// the stripped key is returned only on the path where the byte matched; other returns give the key unchanged (or empty)
 			for _, r := range returnsOf(f) {
 				for _, v := range returnValues(r, 0) {
-					isStrip := v == ssa.Value(strip)
+					isStrip := v == strip
 					if len(r.Results) == 2 {
 						flag, isC := r.Results[1].(*ssa.Const)
 						if isC && flag.Value != nil {
